@@ -314,6 +314,7 @@ func (tree *ObjectTree) Find(scopeIndex uint32, expr []byte) uint32 {
 // findRelative attempts to resolve an object using relative scope lookup rules.
 func (tree *ObjectTree) findRelative(scopeIndex uint32, expr []byte) uint32 {
 	exprLen := len(expr)
+	matchedSegment := false
 
 nextSegment:
 	for segIndex := 0; segIndex < exprLen; segIndex += amlNameLen {
@@ -328,10 +329,12 @@ nextSegment:
 		}
 
 		// Search current scope for an entity matching the next name segment.
-		// Unless the scope is a scope block, its contents live in a nested
-		// scope block.
+		// The contents of an object matched by the previous segment live in
+		// its nested scope block (unless it is a scope block itself). The
+		// scope the lookup starts from is searched as given: a path with
+		// parent prefixes must not step back into the block it came from.
 		scopeObj := tree.ObjectAt(scopeIndex)
-		if scopeObj.opcode != pOpIntScopeBlock {
+		if matchedSegment && scopeObj.opcode != pOpIntScopeBlock {
 			for nextIndex := scopeObj.firstArgIndex; nextIndex != InvalidIndex; nextIndex = tree.ObjectAt(nextIndex).nextSiblingIndex {
 				if obj := tree.ObjectAt(nextIndex); obj.opcode == pOpIntScopeBlock {
 					scopeObj = obj
@@ -352,6 +355,7 @@ nextSegment:
 			// Found match; set match as the next scope index and
 			// try to match the next segment
 			scopeIndex = nextIndex
+			matchedSegment = true
 			continue nextSegment
 		}
 
